@@ -1415,7 +1415,7 @@ def report_violations(out, bad):
 
 # --------------------------------------------------------------------------- the check
 BUGS = ('pitch_sign', 'legacy_threshold', 'thrust_clip', 'goto_order', 'mask_add', 'hl_shared_packet', 'quat_unit_shortcut',
-        'version_demorgan')
+        'version_demorgan', 'version_unsolicited')
 
 
 def _mc_job(job):
